@@ -397,6 +397,7 @@ type Clause struct {
 	Src   string
 	E     Expr
 	Seq   bool // "seq:" prefix — checked/assumed in seq mode only
+	Acq   bool // "acq:" prefix — mon mode only; old() is the state at the latest write-lock acquisition
 	Props []string
 }
 
@@ -471,6 +472,7 @@ type FieldPolicy struct {
 }
 
 type Monitor struct {
+	Rely   []Clause // assumed at every acquisition, NOT checked at release: an environment assumption (listed in evidence)
 	Guar   []Clause
 	Pkg    string
 	Type   string // struct type holding the mutex
@@ -544,7 +546,7 @@ type Forward struct {
 var keywords = map[string]bool{"func": true, "trusted": true, "requires": true, "ensures": true, "ensures_panic": true,
 	"modifies": true, "may_panic": true, "noreturn": true, "inline": true, "mode": true, "props": true, "loop": true, "invariant": true,
 	"decreases": true, "pred": true, "spec": true, "ghost": true, "field": true, "monitor": true, "guards": true, "inv": true,
-	"objinv": true, "lemma": true, "ufun": true, "axiom": true, "universal": true, "atomic": true, "state": true, "guarantee": true, "induction": true, "forwards": true, "package": true, "pure": true, "results": true, "uses": true, "hint": true}
+	"objinv": true, "rely": true, "lemma": true, "ufun": true, "axiom": true, "universal": true, "atomic": true, "state": true, "guarantee": true, "induction": true, "forwards": true, "package": true, "pure": true, "results": true, "uses": true, "hint": true}
 
 // splitTop splits at commas that are not inside parentheses.
 func splitTop(s string) []string {
@@ -581,6 +583,10 @@ func parseClause(rest string) (Clause, error) {
 	r := rest
 	if strings.HasPrefix(r, "seq:") {
 		c.Seq = true
+		r = strings.TrimSpace(r[4:])
+	}
+	if strings.HasPrefix(r, "acq:") {
+		c.Acq = true
 		r = strings.TrimSpace(r[4:])
 	}
 	if i := strings.Index(r, ":"); i > 0 && i+1 < len(r) && r[i+1] != ':' && r[i+1] != '=' {
@@ -742,6 +748,16 @@ func (cs *Contracts) loadFile(path, repo string) error {
 			for _, m := range strings.Split(l.rest, ",") {
 				curA.State = append(curA.State, strings.TrimSpace(m))
 			}
+		case "rely":
+			c, err := parseClause(l.rest)
+			if err != nil {
+				return fail(l, err)
+			}
+			if curM == nil {
+				return fail(l, fmt.Errorf("rely outside monitor"))
+			}
+			curM.Rely = append(curM.Rely, c)
+			cs.Scan["rely"]++
 		case "guarantee":
 			c, err := parseClause(l.rest)
 			if err != nil {
